@@ -32,4 +32,50 @@ PROPS = {
         "probes_expected": {"quick": ["put-err", "write-err", "short-write", "close-err", "rename-err"],
                             "thorough": ["put-err", "write-err", "short-write", "close-err", "rename-err"]},
     },
+    "C14": {
+        "engine": "storesim",
+        "level": "exploration",
+        "runs": {"quick": 4000, "thorough": 400000},
+        "max_wall_s": {"quick": 0, "thorough": 1500},
+        "shrink_s": {"quick": 45, "thorough": 300},
+        "recheck_every": 100,
+        "min_chunk": 16,
+        "rule": ("one evaluation = one history of 20-80 tape-drawn micro-steps (put-open / write / close, get-open / read, stat, walk, "
+                 "delete, delete-all, copy between kinds, tar/zip round trip, hostile archive / plugin names) interleaved over a random "
+                 "tree of real buckets and combinators (memory, disk, disk+symlink mode, prefix map incl. chained mappers, filter, union, "
+                 "overlay, strip), every step followed by model and containment invariants; non-trivial = at least 4 different operation "
+                 "kinds executed; distinct = distinct full trace hash"),
+        "real": ["storagemem", "storageos (real directories on tmpfs, with and without symlink mode)", "storage.Map*/Filter*/Multi/Overlay/Strip buckets",
+                 "storage.Copy", "storagearchive Tar/Untar/Zip/Unzip", "normalpath", "bufprotoplugin.ResponseWriter.WriteResponse"],
+        "stubbed": ["nothing is stubbed: the tape interleaves micro-steps of several logical clients; no goroutine scheduling is involved in this engine"],
+        "assumptions": COMMON_ASSUMPTIONS + [
+            "path universe is prefix-free (a file is never also a directory); otherwise disk and memory legitimately differ",
+            "reads of an object with a non-atomic disk put in flight are not checked (documented as undefined)",
+            "concurrent-client linearizability of the memory bucket (porcupine) is not part of this engine: the wrapper serialises operations, so it would only re-test sequential behaviour",
+        ],
+        "probes_expected": {"quick": ["union-duplicate-detected", "copy-between-kinds", "archive-round-trip", "reader-completed"],
+                            "thorough": ["union-duplicate-detected", "copy-between-kinds", "archive-round-trip", "reader-completed"]},
+    },
+    "C13": {
+        "engine": "storesim",
+        "level": "exploration",
+        "runs": {"quick": 4000, "thorough": 400000},
+        "max_wall_s": {"quick": 0, "thorough": 1500},
+        "shrink_s": {"quick": 45, "thorough": 300},
+        "recheck_every": 100,
+        "min_chunk": 16,
+        "rule": ("same engine as C14 with the operation mix biased to hostile paths: every get/stat/walk/put/delete/delete-all/copy/untar/unzip/"
+                 "plugin-response step draws paths over the component alphabet {name, '.', '..', '', dotted name} (1-5 components, optional "
+                 "leading '/'); after every step sentinels beside and above every disk root, objects outside every mapped view and every other "
+                 "base must be unchanged, and a path that escapes by an independent lexical resolver must have been rejected; non-trivial = at "
+                 "least 4 operation kinds; distinct = distinct full trace hash; distinct hostile spellings reached are reported separately"),
+        "real": ["storagemem", "storageos", "storage.Map*/Filter*/Multi/Overlay/Strip", "storagearchive Untar/Unzip with hostile entry names",
+                 "normalpath.NormalizeAndValidate", "bufprotoplugin.ResponseWriter.WriteResponse"],
+        "stubbed": ["nothing"],
+        "assumptions": COMMON_ASSUMPTIONS + [
+            "only the history clause is decided; the 'exhaustively up to a length bound' clause is sampled (coverage of the short-string set is measured and reported, not assumed)",
+            "normalpath_windows.go is not built on this platform",
+        ],
+        "probes_expected": {"quick": ["hostile-archive", "hostile-plugin-response"], "thorough": ["hostile-archive", "hostile-plugin-response"]},
+    },
 }
